@@ -320,6 +320,9 @@ def main():
                 # source shape outside the translator's subset: NOT a violation; that `…Source` module is not claimed in this run
                 cfg['modules'] = [m for m in cfg['modules'] if m != module]
         # the capstone: property theorems restated about the generated functions only (needs every translation of this run)
+        # further capstones (property theorems restated about generated functions only): claimed when every translation they rest on succeeded
+        for mod, needs in (cfg.get('capstones') or {}).items():
+            if set(needs) <= done and mod not in cfg['modules']: cfg['modules'].append(mod)
         if cfg.get('srcspec') and {'SrcInterp', 'SrcOptimizer', 'SrcValidate', 'SrcOrder'} <= done and 'SlacProps.SourceSpec' not in cfg['modules']:
             cfg['modules'].append('SlacProps.SourceSpec')
     ok, out = lake_build(['driver'] + cfg['modules'])
